@@ -128,7 +128,8 @@ PROPS.update({
                         "sockets through them; for TCP relay listeners it does not hold (finding F18)"]),
                 harnesses=["H2", "H8"]),
     "C05": h2prop(["TurnModel.Props.C05"], ["m:send", "m:cdata", "pdata"], ["topeer", "dind", "cdat"], ["chandata-padding"]),
-    "C06": h2prop(["TurnModel.Props.C06"], ["m:alloc", "m:refresh", "adv", "state", "m:send", "pdata"], ["resp", "topeer", "dind", "cdat", "ev"], []),
+    "C06": dict(h2prop(["TurnModel.Props.C06"], ["m:alloc", "m:refresh", "adv", "state", "m:send", "pdata"], ["resp", "topeer", "dind", "cdat", "ev"],
+                       ["allocation-vanished-after-success", "data-race", "h11-setup"]), harnesses=["H2", "H11"]),
     "C07": h2prop(["TurnModel.Props.C07", "TurnModel.Props.C07Trace"], ["m:perm", "m:bind", "adv", "m:send", "m:cdata", "pdata", "state"],
                   ["resp", "topeer", "dind", "cdat"], []),
     "C08": h2prop(["TurnModel.Props.C08"], ["m:bind", "m:cdata", "pdata", "state"], ["resp", "cdat", "topeer"],
@@ -152,7 +153,7 @@ PROPS.update({
 PROPS["C18"] = {
     "modules": ["TurnModel.Props.C18"], "gen": True,
     "harnesses": ["H9", "H4", "H11"], "view": ["slowcb", "trace"], "outs": None,
-    "alarms": ["liveness-lost", "allocation-left", "txn-completion-race", "harness-died", "data-race", "concurrent-writers-mixed", "h11-setup", "manager-blocked-by-dial", "h9-setup", "server-wedged"],
+    "alarms": ["liveness-lost", "allocation-left", "txn-completion-race", "harness-died", "data-race", "concurrent-writers-mixed", "h11-setup", "manager-blocked-by-dial", "h9-setup", "server-wedged", "allocation-vanished-after-success", "concurrent-first-write-closes-allocation"],
     "rule": "regenerated obligations: xlate re-emits the lock skeleton of every function/closure touching a sync mutex (63 units, 26 lock ids), the call/guard "
             "skeleton of the request handlers and the AddPermission ordering facts from /repo's working tree on every run; the kernel re-checks balanced/guarded "
             "by decide; the translator also derives, over the static call graph, which mutexes each function may take (callee summaries) and the kernel re-checks that the resulting lock-order graph (mutex held -> mutex taken, over every path, through calls) is acyclic (lock_order_acyclic). Failing-input search / supporting run: H9 makes each lifecycle callback slow (1 s / 4 s virtual) and tears the allocation down during it by "
@@ -171,7 +172,7 @@ PROPS["C18"] = {
 PROPS["C20"] = {
     "modules": ["TurnModel.Props.C20"], "gen": True,
     "harnesses": ["H8"], "view": ["pr"], "outs": None,
-    "alarms": ["intn-argument-wrong", "generator-leaks-socket-on-error", "advertised-ip-wrong", "advertised-port-not-bound", "port-out-of-range",
+    "alarms": ["generator-rewrites-socket-address", "intn-argument-wrong", "generator-leaks-socket-on-error", "advertised-ip-wrong", "advertised-port-not-bound", "port-out-of-range",
                "requested-port-not-honoured", "static-generator-address", "none-generator-address", "shared-relay-port-udp4", "shared-relay-port-tcp4"],
     "rule": "regenerated obligation: the port expression of AllocatePacketConn and AllocateListener is re-translated from the Go AST to BitVec 16 on every run and port_in_range is "
             "re-proved for all (min,max,k). H8 drives the real RelayAddressGeneratorPortRange (UDP and TCP) with a scripted Rand on a fake transport.Net (bind succeeds iff port free): all "
@@ -213,7 +214,7 @@ PROPS["C12"] = {
 PROPS["C13"] = {
     "modules": ["TurnModel.Props.C13", "TurnModel.Props.C13Nums", "TurnModel.Props.C13Locks"], "gen": True,
     "harnesses": ["H5", "H11", "H10"], "view": ["cwrite", "cin", "cread", "cadv", "cclose", "cnet"], "outs": None,
-    "alarms": ["inbound-blocks", "h5-setup", "harness-died", "read-deadline-not-sticky", "data-race", "concurrent-writers-mixed", "h11-setup", "channel-number-reused"],
+    "alarms": ["inbound-blocks", "h5-setup", "harness-died", "read-deadline-not-sticky", "data-race", "concurrent-writers-mixed", "h11-setup", "channel-number-reused", "concurrent-first-write-closes-allocation"],
     "rule": "H5 drives the real turn.Client + UDPConn (Allocate, WriteTo, ReadFrom, SetReadDeadline, Close, HandleInbound, the 30 s bindings timer) against a scripted TURN server on an "
             "in-memory socket under virtual time: every write gets a reaction script for CreatePermission and ChannelBind drawn from {ok, 400, 403, 438, 438x2, 438x3, silence, 438+403, 508}; "
             "inbound Data indications, ChannelData (known/unknown channels, payloads starting with the STUN cookie), requests, undecodable STUN, foreign responses, garbage from the server and "
